@@ -44,6 +44,7 @@ ASSUMPTIONS = {
         "inputs are well-formed: unique ids, files sorted by time, times >= 0, link ids of the form HIVE produces",
         "ring search needs at most ~8 rings (max_search_radius_km tied to the search resolution)",
         "pooling activities are not exercised (unreachable through built-in paths in this tree)",
+        "the location grid sim_h3_resolution is HIVE's default 15 in every world (the search resolution is varied 7..12)",
         "externally throttled charger rates are never exactly zero (a vehicle holding exactly 0.0 charging at rate 0 makes vehicle_charge_event raise)",
         "every process runs with PYTHONHASHSEED=0 except the C01 workers, whose hash seed is an explicit input",
     ],
@@ -52,7 +53,9 @@ ASSUMPTIONS = {
     "C06": ["speeds >= 5 km/h, link length >= great-circle distance of its ends", "targets and plug types in this profile are valid for the vehicle"],
     "C08": ["add_* with an id that already exists is API misuse and is not generated"],
     "C11": ["when several rows of one step window name the same station and plug through different keys, any of their prices is accepted (the statement does not order them)"],
-    "C12": ["<= 12 vehicles x <= 40 waiting requests per invocation", "member of the fleet is judged per pair (the request grants the vehicle access)"],
+    "C12": ["<= 12 vehicles x <= 40 waiting requests per invocation", "member of the fleet is judged per pair (the request grants the vehicle access)",
+            "under a fleets configuration every waiting request belongs to exactly one fleet, as the request loader enforces (a request of no fleet "
+            "has no reading under 'within each fleet'; the C17 profile does insert such requests)"],
     "C15": ["when end-start is not a multiple of the step only agreement between runner, step loop and equally long crank is asserted"],
     "C16": ["file readers (cursors held in Update) are outside the re-stepping clause"],
     "C18": ["only vehicles that can use the plug type count as overtaken", "vehicles that received an instruction in the step do not count as served from the queue"],
